@@ -90,6 +90,14 @@ def gen_traj_data(seed, n, profile):
         ts = ts - ts[n // 2]  # time relative to an event: negative stamps
     if profile.get("flat"):
         pos[:, profile["flat"] - 1] = 0.0
+    if profile.get("offset"):
+        # geo-referenced data (UTM, ECEF): a large common offset, small extent
+        pos = pos + np.array(profile["offset"], dtype=float)
+    if profile.get("int_stamps"):
+        # frame numbers / integer ticks: an integer array is a valid argument
+        ts = np.round((ts - ts[0]) * 10).astype(
+            np.dtype(profile["int_stamps"]))
+        ts = ts + np.arange(n, dtype=ts.dtype)  # strictly increasing
     return pos, quat, ts
 
 
